@@ -16,6 +16,7 @@ import (
 	"os"
 	"strconv"
 	"testing"
+	"time"
 
 	"github.com/creachadair/jrpc2"
 	"github.com/creachadair/jrpc2/handler"
@@ -355,6 +356,38 @@ func TestErrors(t *testing.T) {
 			currentVal = "fine"
 			if _, err := loc.Client.Call(ctx, "val", nil); err != nil {
 				add(fmt.Sprintf("%T", v), "unmarshalable result", "connection unusable afterwards: "+err.Error())
+			}
+		}
+	}
+	if shard == 0 {
+		// an *Error whose data cannot be encoded as it stands still becomes an error response (never a missing one)
+		for _, via := range []string{"Call", "Batch"} {
+			current = &jrpc2.Error{Code: 7, Message: "m", Data: json.RawMessage(`{"bad":`)}
+			res.Evaluations++
+			octx, cancel := context.WithTimeout(ctx, 5*time.Second)
+			var err error
+			if via == "Call" {
+				_, err = loc.Client.Call(octx, "fail", nil)
+			} else {
+				var rsps []*jrpc2.Response
+				rsps, err = loc.Client.Batch(octx, []jrpc2.Spec{{Method: "val"}, {Method: "fail"}})
+				if err == nil && len(rsps) == 2 {
+					if e := rsps[1].Error(); e != nil {
+						err = e
+					}
+					if rsps[0].Error() != nil {
+						add("unencodable error data", via, fmt.Sprintf("the sibling call of the batch failed: %v", rsps[0].Error()))
+					}
+				}
+			}
+			cancel()
+			if _, ok := err.(*jrpc2.Error); !ok {
+				add("unencodable error data", via, fmt.Sprintf("want an error response, got %T %v", err, err))
+			}
+			current = nil
+			currentVal = "fine"
+			if _, err := loc.Client.Call(ctx, "val", nil); err != nil {
+				add("unencodable error data", via, "connection unusable afterwards: "+err.Error())
 			}
 		}
 	}
